@@ -11,7 +11,9 @@ import (
 var boundaryAlpha = []string{"\x00", "\x1f", " ", "*", "+", "-", "0", "9", "A", "Z", "a", "\x7f", "\x80", "ñ", "ô", "õ", "€", "\xff",
 	// characters of Unicode classes that an ASCII-only alphabet must not absorb: Arabic-Indic and
 	// fullwidth digits, fullwidth letter, no-break space
-	"٣", "３", "Ａ", "\u00a0"}
+	"٣", "３", "Ａ", "\u00a0",
+	// runes whose low 8 (7) bits are a digit or a capital letter: a table indexed by a truncated rune must not absorb them
+	"İ", "Ł", "°", "Á"}
 
 func c10Body(c *core.Ctx) {
 	// 1. the enumerations of C01-C08 pass through the same three-valued acceptance oracle
@@ -118,6 +120,46 @@ func c10Body(c *core.Ctx) {
 		Run(c, &core.Case{Fam: "pdf", S: big("0123456789", 30000), P: []int{lv}})
 		Run(c, &core.Case{Fam: "pdf", S: byteFiller(12000), P: []int{lv}})
 	}
+	// 4b. dense sweeps beyond capacity: oversize content must be refused whatever integer width an
+	// implementation counts bits, codewords or characters in
+	farQR(c, []int{0, 3})
+	for n := 81; n <= 700; n++ {
+		Run(c, &core.Case{Fam: "c128", S: big("Ab1~\x01", n), P: []int{n % 2}})
+		Run(c, &core.Case{Fam: "c128", S: big("0123456789", 2*n), P: []int{n % 2}})
+	}
+	for n := 1559; n <= 3300; n++ {
+		Run(c, &core.Case{Fam: "dm", S: big("Abc z", n)})
+		Run(c, &core.Case{Fam: "dm", S: big("0123456789", 2*n)})
+	}
+	for _, w := range []int{1 << 15, 1 << 16, 1 << 17} {
+		for n := w - 3; n <= w+3; n++ {
+			Run(c, &core.Case{Fam: "dm", S: big("Abc z", n)})
+			Run(c, &core.Case{Fam: "dm", S: big("0123456789", n)})
+			Run(c, &core.Case{Fam: "pdf", S: big("ABCDEFGH ", n), P: []int{0}})
+			Run(c, &core.Case{Fam: "pdf", S: big("0123456789", n), P: []int{0}})
+		}
+	}
+	for _, w := range []int{192239, 96119} { // 2^16 and 2^15 codewords of numeric compaction (44 digits -> 15 codewords)
+		for n := w - 8; n <= w+8; n++ {
+			Run(c, &core.Case{Fam: "pdf", S: big("0123456789", n), P: []int{0}})
+		}
+	}
+	if c.Thorough() {
+		// byte compaction of oversize data is quadratic in the library (37 s for 78 643 bytes): thorough tier only
+		for _, w := range []int{39321, 78643} { // 2^15 and 2^16 codewords of byte compaction (6 bytes -> 5 codewords)
+			for n := w - 1; n <= w+1; n++ {
+				Run(c, &core.Case{Fam: "pdf", S: byteFiller(n), P: []int{0}})
+			}
+		}
+	}
+	for _, w := range []int{4096, 6553, 8192, 13107, 16384} { // 2^15 / 2^16 bits of Aztec binary, upper-case and digit payloads
+		for n := w - 3; n <= w+3; n++ {
+			Run(c, &core.Case{Fam: "az", S: byteFiller(n), P: []int{0, 0}})
+			Run(c, &core.Case{Fam: "az", S: big("ABCDEFGH ", n), P: []int{0, 0}})
+			Run(c, &core.Case{Fam: "az", S: big("0123456789", n), P: []int{0, 0}})
+		}
+	}
+	c.R.Bound("far_oversize", "QR: every length from capacity(40)+2 to beyond the 16-bit wrap of the payload bit count, levels L and H; Code 128: every length 81..700 (digits to 1400); DataMatrix: every length 1559..3300 (digits to 6600); windows around 2^15, 2^16, 2^17 characters / codewords / bits for DataMatrix, PDF417 and Aztec")
 	c.R.Bound("reused", "the quick-tier enumerations of C01-C08 (every explored call passes the same acceptance oracle)")
 	c.R.Bound("boundary_words", fmt.Sprintf("all words <= %d over %q for every entry point and flag combination (QR: <= 3 x 4 levels x 4 modes)", bl, boundaryAlpha))
 	c.R.Bound("parameters", "PDF417 security level 0..255 x 6 contents; Aztec layers -40..40 x percentages {0..100,150,400,1000,100000} x 4 payloads")
